@@ -22,6 +22,8 @@ type Stats struct {
 	Exhaustive   bool              `json:"exhaustive,omitempty"`
 	Notes        []string          `json:"notes,omitempty"`
 	StoppedEarly bool              `json:"stopped_early,omitempty"`
+	// BulkDistinct counts non-trivial cases of an enumeration (distinct by construction, not hashed).
+	BulkDistinct int64 `json:"bulk_distinct,omitempty"`
 
 	mu          sync.Mutex
 	hashes      map[uint64]struct{}
@@ -61,6 +63,32 @@ func (s *Stats) Case(caseJSON []byte, nontrivial bool, labels []string) {
 			}
 		}
 	}
+}
+
+// Bulk records cases of a deterministic enumeration: every enumerated case is distinct by construction.
+func (s *Stats) Bulk(evaluations, nontrivialDistinct int64) {
+	s.mu.Lock()
+	s.Evaluations += evaluations
+	s.NonTrivial += nontrivialDistinct
+	s.BulkDistinct += nontrivialDistinct
+	s.mu.Unlock()
+}
+
+// AddSample stores a literal sample (any JSON-serialisable value) if there is room.
+func (s *Stats) AddSample(v interface{}) {
+	s.mu.Lock()
+	defer s.mu.Unlock()
+	if len(s.Samples) < maxSamples {
+		if b, err := json.Marshal(v); err == nil {
+			s.Samples = append(s.Samples, b)
+		}
+	}
+}
+
+func (s *Stats) SetExhaustive() {
+	s.mu.Lock()
+	s.Exhaustive = true
+	s.mu.Unlock()
 }
 
 func (s *Stats) Exclude(key string) {
